@@ -403,7 +403,17 @@ fn run_draws(cx: &mut CaseCx, case: &Value) {
   let t = case["t"].as_u64().unwrap() as u32;
   let k = case["k"].as_u64().unwrap() as usize;
   let se = sec_elems();
-  let elems: Vec<BigUint> = (0..k).map(|j| se[(j + 1) % se.len()].clone()).collect();
+  // secrets with REPEATED elements (padding, all-zero secrets): every element still gets a polynomial of its own
+  let elems: Vec<BigUint> = match case["repeat"].as_str() {
+    Some("all-equal") => (0..k).map(|_| se[1].clone()).collect(),
+    Some("all-zero") => (0..k).map(|_| BigUint::zero()).collect(),
+    Some("apart") => (0..k).map(|j| se[1 + (j % 2)].clone()).collect(), // A B A B ..
+    Some("ends") => (0..k).map(|j| if j == 0 || j + 1 == k { se[7].clone() } else { se[(j + 1) % se.len()].clone() }).collect(),
+    _ => (0..k).map(|j| se[(j + 1) % se.len()].clone()).collect(),
+  };
+  if case["repeat"].is_string() {
+    cx.count("repeated_element_secrets", 1);
+  }
   let secret = secret_bytes(&elems, 0);
   let key = cx.seed ^ 0xD7A3 ^ (t as u64) << 8 ^ k as u64;
   let (sname, prefix) = streams().into_iter().nth(case["stream"].as_u64().unwrap_or(0) as usize).unwrap();
@@ -1038,7 +1048,7 @@ pub fn spec() -> PropSpec {
       },
       Check {
         name: "separate-draws",
-        rule: "coefficients (by model interpolation) pairwise distinct and non-zero under a fresh stream; E-env single-word deviation at EVERY 8-byte word the dealer consumed changes at most one coefficient and every coefficient is changed by some word",
+        rule: "coefficients (by model interpolation) pairwise distinct and non-zero under a fresh stream; E-env single-word deviation at EVERY 8-byte word the dealer consumed changes at most one coefficient and every coefficient is changed by some word; also for secrets with REPEATED elements (all equal, all zero, A B A B, equal first and last; 2..5 elements): every element has a polynomial of its own",
         gen: |tier| {
           let mut v = vec![];
           for t in if tier.thorough() { vec![2u64, 3, 4, 5, 8, 34, 40] } else { vec![2u64, 3, 5, 34] } {
@@ -1047,6 +1057,12 @@ pub fn spec() -> PropSpec {
                 continue;
               }
               v.push(json!({"t": t, "k": k}));
+              if t <= 5 && k >= 2 {
+                for rep in ["all-equal", "all-zero", "apart", "ends"] {
+                  v.push(json!({"t": t, "k": k, "repeat": rep}));
+                  v.push(json!({"t": t, "k": k + 2, "repeat": rep}));
+                }
+              }
               if t <= 8 {
                 // streams whose first draws are zero / rejected candidates: a zero draw is a draw like any other
                 v.push(json!({"t": t, "k": k, "stream": 1}));
@@ -1057,7 +1073,7 @@ pub fn spec() -> PropSpec {
           v
         },
         run: run_draws,
-        min_counts: &[("evaluations", 100)],
+        min_counts: &[("evaluations", 100), ("repeated_element_secrets", 40)],
       },
       Check {
         name: "boundary-candidates",
